@@ -21,7 +21,7 @@ only).  All bound branch inputs are active.  Core Lean only.
 -/
 namespace HgVerif.Switch
 
-abbrev Time := Nat
+local notation "Time" => Nat
 abbrev Val := Int
 abbrev Key := Int
 
@@ -70,14 +70,18 @@ def acceptsInvalid (b : Branch σ) : Bool :=
 
 end Branch
 
-/-- A constructed child graph (`GraphValue` in `graphs[slot]`). -/
-structure Inst (σ : Type) where
-  id : Nat                     -- ordinal of construction (reporting only)
+/-- The state of a child graph as far as its own behaviour goes. -/
+structure Child (σ : Type) where
   br : Branch σ                -- the branch it was built from (`active_spec`)
   st : σ
   wake : Option Time           -- the child's `next_scheduled_time` (`none` = `MAX_DT`)
-  running : Bool               -- started and not stopped
   sampledAt : Option Time      -- the cycle in which its boundary was bound `sampled`
+
+/-- A constructed child graph (`GraphValue` in `graphs[slot]`). -/
+structure Inst (σ : Type) where
+  id : Nat                     -- ordinal of construction (reporting only)
+  running : Bool               -- started and not stopped
+  child : Child σ
 
 inductive Event where
   | construct (id : Nat) (slot : Bool)
@@ -147,53 +151,73 @@ def teardown (s : SW σ) : SW σ × List Event :=
           previousSlot := s.activeSlot, activeSlot := none, activeKey := none },
        [Event.stop i.id a])
 
-/-- The freshly started instance of branch `b` (state after the start hook; a start hook may
-    schedule at `now` or later, earlier times are rejected by the scheduler). -/
-def freshInst (b : Branch σ) (id : Nat) (now : Time) : Inst σ :=
-  { id := id, br := b, st := (b.start now b.init).1,
+/-- The freshly started child of branch `b` (state after the start hook; a start hook may schedule
+    at `now` or later, earlier times are rejected by the scheduler). -/
+def freshChild (b : Branch σ) (now : Time) : Child σ :=
+  { br := b, st := (b.start now b.init).1,
     wake := (b.start now b.init).2.filter (fun w => now ≤ w),
-    running := true, sampledAt := some now }
+    sampledAt := some now }
 
-/-- `activate_branch`: destroy what the reusable slot holds, construct the new child there, bind its
-    inputs `sampled`, stop the old child, make the new one active, start it. -/
+/-- `next_slot = active_slot ? 1 - *active_slot : 0` -/
+def nextSlot (s : SW σ) : Bool :=
+  match s.activeSlot with
+  | some a => !a
+  | none => false
+
+/-- `previous_slot.has_value() && *previous_slot != next_slot` (the `logic_error` guard) -/
+def slotMismatch (s : SW σ) : Bool :=
+  match s.previousSlot with
+  | some p => p != nextSlot s
+  | none => false
+
+/-- The body of `activate_branch`: destroy what the reusable slot holds, construct the new child
+    there, bind its inputs `sampled`, stop the old child, make the new one active, start it. -/
+def activateBody (s : SW σ) (b : Branch σ) (k : Key) (now : Time) : SW σ × List Event :=
+  let next := nextSlot s
+  let evD := match s.graph next with
+    | some old => [Event.destroy old.id next]
+    | none => []
+  let id := s.nextId + 1
+  let built : Inst σ := { id := id, running := false,
+                          child := { br := b, st := b.init, wake := none, sampledAt := some now } }
+  let s2 : SW σ := { (s.setGraph next none).setGraph next (some built) with previousSlot := none, nextId := id }
+  let td := teardown s2
+  let s4 : SW σ := { td.1 with activeSlot := some next, activeKey := some k }
+  (s4.setGraph next (some { id := id, running := true, child := freshChild b now }),
+   evD ++ [Event.construct id next] ++ td.2 ++ [Event.start id next b.name])
+
+/-- `activate_branch` -/
 def activate (s : SW σ) (b : Branch σ) (k : Key) (now : Time) : Except Err (SW σ × List Event) :=
-  let next : Bool := match s.activeSlot with
-    | some a => !a
-    | none => false
-  if (match s.previousSlot with
-      | some p => p != next
-      | none => false) then .error .slotLogic
-  else
-    let evD := match s.graph next with
-      | some old => [Event.destroy old.id next]
-      | none => []
-    let id := s.nextId + 1
-    let built : Inst σ := { id := id, br := b, st := b.init, wake := none, running := false, sampledAt := some now }
-    let s2 : SW σ := { (s.setGraph next none).setGraph next (some built) with previousSlot := none, nextId := id }
-    let td := teardown s2
-    let s4 : SW σ := { td.1 with activeSlot := some next, activeKey := some k }
-    .ok (s4.setGraph next (some (freshInst b id now)),
-         evD ++ [Event.construct id next] ++ td.2 ++ [Event.start id next b.name])
+  if slotMismatch s then .error .slotLogic else .ok (activateBody s b k now)
 
 structure ChildOut (σ : Type) where
-  inst : Inst σ
+  child : Child σ
   out : Option Val
   ranUser : Bool
 
-/-- One evaluation of a child graph at `now` (`GraphView::evaluate` on the nested graph). -/
-def childEval (i : Inst σ) (now : Time) (ports : List Port) : ChildOut σ :=
-  let sampling := i.sampledAt == some now
-  let v0 := i.br.view ports
-  let v := if sampling then v0.map Port.sample else v0
-  let dueIn := v.any (fun p => p.ticked) || (sampling && i.br.acceptsInvalid && !v0.isEmpty)
-  let woken := i.wake == some now
-  if dueIn || woken then
-    if i.br.gate v then
-      let r := i.br.step i.st now v woken
-      { inst := { i with st := r.1, wake := r.2.2.filter (fun w => now < w) }, out := r.2.1, ranUser := true }
+/-- The bound inputs as the child sees them at `now`: sampled in the activation cycle. -/
+def Child.seen (i : Child σ) (now : Time) (ports : List Port) : List Port :=
+  if i.sampledAt == some now then (i.br.view ports).map Port.sample else i.br.view ports
+
+/-- The child's node is scheduled at `now`: a bound input ticked (or was sampled at activation —
+    `schedule_sampled_input_consumers`, which also schedules an empty-validity-gate node whose
+    sources are unset) or its own timer is due. -/
+def Child.due (i : Child σ) (now : Time) (ports : List Port) : Bool :=
+  (i.seen now ports).any (fun p => p.ticked) ||
+    (i.sampledAt == some now && i.br.acceptsInvalid && !(i.br.view ports).isEmpty) ||
+    i.wake == some now
+
+/-- One evaluation of a child graph at `now` (`GraphView::evaluate` on the nested graph): the user
+    code runs iff the node is scheduled and its validity gate passes (`node.cpp evaluate_impl`); a
+    due timer event is consumed either way. -/
+def childEval (i : Child σ) (now : Time) (ports : List Port) : ChildOut σ :=
+  if i.due now ports then
+    if i.br.gate (i.seen now ports) then
+      let r := i.br.step i.st now (i.seen now ports) (i.wake == some now)
+      { child := { i with st := r.1, wake := r.2.2.filter (fun w => now < w) }, out := r.2.1, ranUser := true }
     else
-      { inst := { i with wake := if woken then none else i.wake }, out := none, ranUser := false }
-  else { inst := i, out := none, ranUser := false }
+      { child := { i with wake := if i.wake == some now then none else i.wake }, out := none, ranUser := false }
+  else { child := i, out := none, ranUser := false }
 
 structure EvalOut (σ : Type) where
   sw : SW σ
@@ -222,9 +246,9 @@ def evalActive (s : SW σ) (now : Time) (ports : List Port) (ev : List Event) : 
     match s.graph a with
     | none => { sw := s, out := none, events := ev }
     | some i =>
-      let c := childEval i now ports
-      let s2 := s.setGraph a (some c.inst)
-      let slot := match c.inst.wake with
+      let c := childEval i.child now ports
+      let s2 := s.setGraph a (some { i with child := c.child })
+      let slot := match c.child.wake with
         | some w => schedNode s2.nodeSlot now w
         | none => s2.nodeSlot
       { sw := { s2 with nodeSlot := slot, outVal := match c.out with
